@@ -231,6 +231,17 @@ Definition dstep (cfg : dconfig) (s : dag) (o : dop) : dag * outcome :=
   | DNew nm pa ca ftp ftc => construct cfg s nm pa ca ftp ftc
   end.
 
+(* the same call with user hooks that do not raise *)
+Definition strip_faults (o : dop) : dop :=
+  match o with
+  | SetParents c cont args _ => SetParents c cont args DNoFault
+  | SetKids p cont args _ => SetKids p cont args DNoFault
+  | DRShift p c _ => DRShift p c DNoFault
+  | DLShift c p _ => DLShift c p DNoFault
+  | DNew nm pa ca _ _ => DNew nm pa ca DNoFault DNoFault
+  | o' => o'
+  end.
+
 Definition drun (cfg : dconfig) (s : dag) (ops : list dop) : dag :=
   fold_left (fun st o => fst (dstep cfg st o)) ops s.
 
